@@ -6,6 +6,7 @@ CONSTANTS
   MaxRules = 2
   ElemToks = {"s", "a", "dot", "Gns", "Gany", "Gdig", "Nns"}
   GenLen = 2
+  DefaultHosts = {"none"}
   Hosts = {"b.com"}
   PathToks = {"s", "a", "1", "dot", "pA", "pS"}
   PathLen = 3
